@@ -338,6 +338,8 @@ def run(ctx):
         "populations are conforming: distinct positive ids, every reference resolves inside its own file to an instance of an admissible type",
         "entity names exist in the schema and complex combinations are legal (C08's subject)",
     ]
+    from checks.c15 import baseline_generated, GENERATED_FILES
+    baseline_generated(GENERATED_FILES)
     proof_ok = ctx.lean("StepModel.Props.C14", exes=["m_c14"], extractors=EXTRACTORS)
     if not proof_ok:
         from vlib import lean as L
